@@ -23,6 +23,7 @@ import (
 	"github.com/google/uuid"
 	goredis "github.com/redis/go-redis/v9"
 
+	"tunnox-core/internal/core/node"
 	"tunnox-core/internal/core/storage"
 	"tunnox-core/internal/core/storage/memory"
 	"tunnox-core/internal/core/storage/types"
@@ -387,6 +388,38 @@ func c15NewCluster(backend string, nodes int, st *c15Stats, opts c15ClusterOpts)
 		h := storage.NewHybridStorage(ctx, gate("local", memory.New(ctx)), nil, hcfg())
 		for i := 0; i < nodes; i++ {
 			c.stores = append(c.stores, h)
+		}
+	case "factory-redis-local-dbs", "factory-memory-local", "factory-redis-single-db", "factory-redis-storage":
+		// Storages built the way the server builds them: through the real StorageFactory.
+		// All nodes use ONE Redis server; what differs per configuration is which
+		// database holds the node-local cache and which the shared cache. (No gates,
+		// no fault hooks: the tiers are created inside the factory.)
+		mr, err := miniredis.Run()
+		if err != nil {
+			return fail(err)
+		}
+		c.mr = mr
+		for i := 0; i < nodes; i++ {
+			var cfg storage.StorageConfig
+			switch backend {
+			case "factory-redis-local-dbs": // node-local cache in its own DB, shared cache in DB 0
+				cfg = &storage.HybridStorageConfig{CacheType: "redis",
+					RedisConfig:       &storage.RedisConfig{Addr: mr.Addr(), DB: i + 1, PoolSize: 6},
+					SharedCacheConfig: &storage.RedisConfig{Addr: mr.Addr(), DB: 0, PoolSize: 6}}
+			case "factory-memory-local": // memory local cache, shared cache in DB 3
+				cfg = storage.NewHybridStorageFactoryConfig(&storage.HybridStorageConfig{CacheType: "memory",
+					SharedCacheConfig: &storage.RedisConfig{Addr: mr.Addr(), DB: 3, PoolSize: 6}})
+			case "factory-redis-single-db": // one Redis DB for local and shared data of every node
+				cfg = &storage.HybridStorageConfig{CacheType: "redis",
+					RedisConfig: &storage.RedisConfig{Addr: mr.Addr(), DB: 2, PoolSize: 6}}
+			default: // plain Redis storage type
+				cfg = storage.NewRedisStorageConfig(&storage.RedisConfig{Addr: mr.Addr(), DB: 1, PoolSize: 6})
+			}
+			st, err := storage.NewStorageFactory(ctx).CreateStorage(cfg)
+			if err != nil {
+				return fail(err)
+			}
+			c.stores = append(c.stores, st)
 		}
 	default:
 		return fail(fmt.Errorf("unknown backend %q", backend))
@@ -1798,6 +1831,135 @@ func c15TestLateEffects(t *testing.T) {
 	run.Floor("refused_after_settle", 50)
 }
 
+// c15TestFactory — the store is wired by the server's own StorageFactory. G nodes are
+// built through CreateStorage against ONE Redis server (miniredis) in the configurations
+// a cluster can be given: node-local Redis DB per node + common shared DB, memory local
+// cache + shared DB, one DB for everything, plain Redis storage. Same workload, phases
+// and oracle as idgen-cluster (no gate hooks, the tiers are created inside the factory),
+// plus NodeIDAllocators of all nodes allocating concurrently.
+func c15TestFactory(t *testing.T) {
+	vk.Quiet()
+	run := vk.Start(t, "C15", "idgen-factory")
+	defer run.Finish()
+	run.Rule("case = (factory configuration in {redis local DB per node + shared DB 0, memory local + shared DB, single Redis DB, plain Redis storage} on one miniredis server, K in {1,4,16}, G in {2,4} nodes each built by StorageFactory.CreateStorage, pre-seed pattern); idgen-cluster phases and oracle; then one NodeIDAllocator per node allocates concurrently, twice, with releases in between; distinct = (config,K,G,preseed)")
+	ent := c15InstallEntropy(t, run)
+	r := run.Rand("factory")
+	reps := run.Pick(1, 6)
+	backends := []string{"factory-redis-local-dbs", "factory-memory-local", "factory-redis-single-db", "factory-redis-storage"}
+	seeds := []string{"none", "some", "all-but-one", "all"}
+	planned, decided := 0, 0
+	caseNo := 0
+	for _, be := range backends {
+		for _, k := range []int{1, 4, 16} {
+			for rep := 0; rep < reps; rep++ {
+				planned++
+				if run.Violations() >= 20 {
+					continue
+				}
+				g := []int{2, 4}[caseNo%2]
+				caseNo++
+				cs := c15Case{Backend: be, K: k, G: g, Threads: 4, Seed: seeds[r.Intn(len(seeds))], RelPct: 25 + r.Intn(40), Sub: r.Int63()}
+				cs.Ops = 240 / (cs.G * cs.Threads)
+				cs.MaxOwn = 1 + r.Intn(1+4*k/(cs.G*cs.Threads)+1)
+				if k == 1 && cs.Seed == "all-but-one" {
+					cs.Seed = "none"
+				}
+				run.Case(fmt.Sprintf("factory|%s|K=%d|G=%d|%s", be, k, g, cs.Seed), cs)
+				if c15RunCase(t, run, ent, cs, &c15Stats{}) {
+					decided++
+				}
+				run.Eval(1)
+				run.Distinct(fmt.Sprintf("%s|K=%d|G=%d|%s", be, k, g, cs.Seed))
+				run.Sample(cs)
+				run.Count("cases_"+be, 1)
+			}
+		}
+		run.Floor("exhausted_"+be, 1)
+		run.Floor("cases_"+be, 3)
+		// node ids across factory-built nodes
+		for _, n := range []int{2, 4} {
+			planned++
+			if c15FactoryNodeIDs(t, run, be, n) {
+				decided++
+			}
+			run.Eval(1)
+			run.Distinct(fmt.Sprintf("%s|node-ids|N=%d", be, n))
+		}
+	}
+	if decided == planned || (run.Counter("watchdog") == 0 && run.Violations() >= 20) {
+		run.Count("all_cases_decided", 1)
+	}
+	run.Floor("all_cases_decided", 1)
+	run.Floor("generate_ok", 500)
+	run.Floor("refused_while_saturated", 20)
+	run.Floor("preseeded_markers", 10)
+	run.Floor("node_ids_allocated", 30)
+}
+
+// c15FactoryNodeIDs: one allocator per factory-built node allocates concurrently (round
+// 1), every second one releases, a second wave of fresh allocators allocates (round 2).
+func c15FactoryNodeIDs(t *testing.T, run *vk.Run, be string, n int) bool {
+	cl, err := c15NewCluster(be, n, &c15Stats{}, c15ClusterOpts{})
+	if err != nil {
+		t.Fatalf("c15: factory cluster %s: %v", be, err)
+	}
+	defer cl.close()
+	ctx, cancel := context.WithCancel(context.Background())
+	defer cancel()
+	h := &c15Hist{}
+	allocs := make([]*node.NodeIDAllocator, n)
+	ids := make([]string, n)
+	wave := func(only func(i int) bool) {
+		var wg sync.WaitGroup
+		for i := 0; i < n; i++ {
+			if !only(i) {
+				continue
+			}
+			wg.Add(1)
+			go func(i int) {
+				defer wg.Done()
+				a := node.NewNodeIDAllocator(cl.stores[i])
+				op := c15Op{Kind: "node-slot", Gen: true, Node: i, Call: h.now()}
+				id, err := a.AllocateNodeID(ctx)
+				op.Ret = h.now()
+				if err != nil {
+					op.Err = err.Error()
+					h.add(op)
+					return
+				}
+				op.OK, op.ID = true, id
+				h.add(op)
+				allocs[i], ids[i] = a, id
+				run.Count("node_ids_allocated", 1)
+			}(i)
+		}
+		wg.Wait()
+	}
+	wave(func(int) bool { return true })
+	for i := 0; i < n; i += 2 {
+		if allocs[i] == nil {
+			continue
+		}
+		op := c15Op{Kind: "node-slot", ID: ids[i], Node: i, Call: h.now()}
+		err := allocs[i].Release()
+		op.Ret = h.now()
+		op.OK = err == nil
+		h.add(op)
+		allocs[i] = nil
+	}
+	wave(func(i int) bool { return allocs[i] == nil })
+	bad, unknown, _ := c15CheckHistory(h.ops)
+	for _, p := range bad {
+		run.Violation("C15:duplicate-live-node-id|backend="+be, map[string]any{"config": be, "nodes": n, "id": p[0].ID, "witness": c15Witness(p)})
+	}
+	for _, a := range allocs {
+		if a != nil {
+			_ = a.Release()
+		}
+	}
+	return unknown == 0
+}
+
 // TestVerifC15Idgen runs the id-generator monitors one after the other (they share the
 // process-wide entropy fault and must not overlap with each other). The group as a whole
 // is parallel to TestVerifC15NodeLease, whose time is spent waiting for real heartbeats.
@@ -1808,5 +1970,6 @@ func TestVerifC15Idgen(t *testing.T) {
 	t.Run("Aging", c15TestAging)
 	t.Run("Janitor", c15TestJanitor)
 	t.Run("LateEffects", c15TestLateEffects)
+	t.Run("Factory", c15TestFactory)
 	t.Run("UUID", c15TestUUID)
 }
